@@ -1,5 +1,8 @@
 import PydapModel.Generated.SliceSrc
 import PydapModel.Generated.Tables
+import PydapModel.Heap
 import PydapModel.MiniPy
+import PydapModel.Quote
 import PydapModel.Sexp
 import PydapModel.Slice
+import PydapModel.Tree
